@@ -87,7 +87,8 @@ FatCases == { [kind |-> "block", n |-> 3, sw |-> t[2], rk |-> t[3], txs |-> FatT
                h |-> [Base EXCEPT !.root = RootOf(t[3], FatTxs(t[1], t[2]))]] :
                t \in {252, 253} \X {"none", "all"} \X {"good", "alien"} }
 HeaderCases == { [kind |-> "header", h |-> h] : h \in Headers }
-Cases == HeaderCases \cup BlockCases \cup FatCases
+\* one more record: the process configurations (BlockWire.LoadOrders) the message cases are to be executed in
+Cases == HeaderCases \cup BlockCases \cup FatCases \cup {[kind |-> "config"]}
 
 \* ---------------------------------------------------------------- lemmas
 HeaderImage == c.kind = "header" =>
@@ -108,6 +109,7 @@ BlockImage == c.kind = "block" =>
   \* the honest one and the duplication quirk qualify
   /\ (MerkleOk(c.h, c.txs) <=> c.rk \in {"good", "dupquirk"})
   /\ (c.rk = "wtxid" => HasWitness(c.txs[2]) /\ WTxId(c.txs[2]) # TxId(c.txs[2]))
+  /\ BlockMsgParts(c.h, c.txs) = BlockParts(c.h, c.txs)               \* the "block" message carries exactly the image
 BlockHeadReadBack == (c.kind = "block" /\ c.rk = "good") =>
   \* with the 32-byte terms replaced by literals the head of the block parses back to header and count
   LET lit == [c.h EXCEPT !.root = B(Pat[2])]
@@ -117,7 +119,9 @@ BlockHeadReadBack == (c.kind = "block" /\ c.rk = "good") =>
      /\ p.body = CatAll([i \in 1..Len(c.txs) |-> Wire(c.txs[i])])
 
 \* ---------------------------------------------------------------- export
-Out == IF c.kind = "header"
+Out == IF c.kind = "config"
+       THEN [k |-> "config", orders |-> LoadOrders, driven |-> Driven]
+       ELSE IF c.kind = "header"
        THEN [k |-> "header", h |-> c.h, image |-> HeaderParts(c.h), id |-> IdDisplay(c.h), prev |-> PrevDisplay(c.h),
              nonce2 |-> OtherNonce(c.h), id2 |-> IdDisplay([c.h EXCEPT !.nonce = OtherNonce(c.h)])]
        ELSE [k |-> "block", n |-> c.n, sw |-> c.sw, rk |-> c.rk, h |-> c.h,
